@@ -40,6 +40,13 @@ theorem gen_router_stateless : Gen.C18.routerStateOutsideLoop = [] ∧
 theorem gen_router_loop : Gen.C18.routerHandlers = ["Exception"] ∧ Gen.C18.routerHandlerLeavesLoop = false ∧
     Gen.C18.routerTryInsideLoop = true := by decide
 
+/-- every router object creates its own, empty queue table: nothing is passed in or shared through a default
+argument or a class attribute, so two links alive in one process (two TcpDriver connections) have disjoint tables and
+`links_isolated` below describes them -/
+theorem gen_router_object_state : Gen.C18.routerInitParams = ["self", "transport"] ∧
+    Gen.C18.routerInitQueues = ["self._rxQueues = {}"] ∧ Gen.C18.routerClassLevel = [] ∧
+    Gen.C18.routerCtorCalls = ["CPXRouter(transport)"] := by decide
+
 /-! ## The property -/
 
 /-- A packet whose enum-typed fields hold members of the enums (the only packets Python can build). -/
@@ -74,6 +81,23 @@ theorem router_fifo_per_function (ops : List ROp) (f : Nat) :
     (routerRun ops).get f = expectedQueue f ops := by
   have := router_inv ops f []
   simpa [routerRun, Queues.has] using this
+
+/-- Several CPX links alive in one process do not see each other: after any interleaving of the registrations and
+packet arrivals of all links, link `i`'s queues are exactly what its own operations alone produce (so by
+`router_fifo_per_function` each of its functions holds its own packets in arrival order, and nothing of another link). -/
+theorem links_isolated (ops : List (Nat × ROp)) (i : Nat) :
+    worldRun ops i = routerRun (opsOf i ops) :=
+  worldFold_link ops i (fun _ => [])
+
+theorem links_fifo_per_function (ops : List (Nat × ROp)) (i f : Nat) :
+    (worldRun ops i).get f = expectedQueue f (opsOf i ops) := by
+  rw [links_isolated]; exact router_fifo_per_function _ f
+
+/-- what the obligation `gen_router_object_state` rules out: with one table shared by the router objects, link 0's
+receiver of function 3 is handed link 1's packet -/
+example : (sharedRun [(0, .reg 3), (1, .reg 3), (1, .pkt 3 7)]).get 3 = [7] ∧
+    (worldRun [(0, .reg 3), (1, .reg 3), (1, .pkt 3 7)] 0).get 3 = [] ∧
+    (worldRun [(0, .reg 3), (1, .reg 3), (1, .pkt 3 7)] 1).get 3 = [7] := by decide
 
 /-- A packet the transport rejects (unsupported version, unknown target/function, short header) neither
 kills the router thread nor stops the routing of the packets that follow it: whatever `readPacket` raises,
